@@ -113,7 +113,7 @@ void a_vec_setz(a_vec *ctx, a_size siz, void (*dtor)(void *))
 
 void a_vec_sort(a_vec const *ctx, int (*cmp)(void const *, void const *))
 {
-    qsort(ctx->ptr_, ctx->num_, ctx->siz_, cmp);
+    if (ctx->num_ > 1) { qsort(ctx->ptr_, ctx->num_, ctx->siz_, cmp); }
 }
 
 void a_vec_sort_fore(a_vec const *ctx, int (*cmp)(void const *, void const *))
@@ -223,7 +223,7 @@ void *a_vec_push_sort(a_vec *ctx, void const *key, int (*cmp)(void const *, void
 
 void *a_vec_search(a_vec const *ctx, void const *obj, int (*cmp)(void const *, void const *))
 {
-    return bsearch(obj, ctx->ptr_, ctx->num_, ctx->siz_, cmp);
+    return ctx->num_ ? bsearch(obj, ctx->ptr_, ctx->num_, ctx->siz_, cmp) : A_NULL;
 }
 
 void *a_vec_insert(a_vec *ctx, a_size idx)
